@@ -31,6 +31,7 @@ STEER = {
     "js": dict(err_custom_only=True),
     "demo_gen": dict(err_custom_only=True),
     "dart": dict(no_byte_slices=True),
+    "nanobind": dict(),      # (static getter/setter pairs are kept off opaque types: see add_special_methods)
 }
 
 
@@ -46,7 +47,7 @@ def run_probes(art):
         os.makedirs(d, exist_ok=True)
         entry = os.path.join(d, "lib.rs")
         open(entry, "w").write(pr["lib_rs"])
-        r = tool.run_backend(art, pr["backend"], entry, os.path.join(d, "out"), config=pr["config"])
+        r = tool.run_backend(art, pr["backend"], entry, os.path.join(d, "out"), config=pr["config"], backtrace=True)
         if r.classify() == "panic" and panic_signature(pr["backend"], r.stderr) == f["signature"]:
             seen.append(f["what"])
     build.rm_workdir(work)
@@ -65,7 +66,16 @@ def panic_signature(backend, stderr):
     b = "js" if backend == "demo_gen" and m.group(1).startswith("tool/src/js") else backend
     if m.group(1).startswith("core/"):
         b = "core"
-    return "%s|%s|%s" % (b, m.group(1), msg[:120])
+    # the innermost function of the repository's own crates on the panicking stack (RUST_BACKTRACE=1): file and message alone
+    # do not tell two `unwrap()`s or two `unreachable!`s of one file apart
+    fn = "?"
+    for fm in re.finditer(r"^\s*\d+:\s+(?:<)?(diplomat_(?:tool|core)::[^\n]*)$", stderr, re.M):
+        fn = re.sub(r"<[^<>]*>", "", fm.group(1))
+        fn = re.sub(r"<[^<>]*>", "", fn)
+        fn = re.sub(r"::\{\{closure\}\}.*$", "", fn).replace(" as ", "-as-").strip("<> ")
+        fn = fn.split(" ")[0]
+        break
+    return "%s|%s|%s|in %s" % (b, m.group(1), msg[:120], fn)
 
 
 def nontrivial(prog):
@@ -85,6 +95,9 @@ def cases():
         over.update(STEER.get(b, {}))
         p = S.profile_for([b], **over)
         prog = draw(S.programs(p))
+        if draw(st.integers(0, 2)) == 0:
+            prog["_steer"] = {"no_static_props_on_opaque": b == "nanobind"}
+            prog["special"] = S.add_special_methods(draw, prog)     # getters/setters, constructors, stringifiers, comparators, indexers, iterators
         if b in ("kotlin", "c") and draw(st.integers(0, 3)) == 0:
             S.add_trait(draw, prog)      # bridged traits: kotlin and c are the backends that accept them
         return b, prog
@@ -111,7 +124,7 @@ def run_case(art, work, backend, prog, tag):
     open(entry, "w").write(src)
     out = []
     for ci, cfg in enumerate(CONFIGS[backend]):
-        r = tool.run_backend(art, backend, entry, os.path.join(d, "out%d" % ci), config=cfg)
+        r = tool.run_backend(art, backend, entry, os.path.join(d, "out%d" % ci), config=cfg, backtrace=True)
         out.append((cfg, r))
     return src, out
 
